@@ -57,5 +57,6 @@ RULE = (
     "was answered, or a late reply released; distinct = distinct trace."
     " Also: with disconnect_on_timeout the silent connection is dropped at every timeout (script 'timeout2': two timeouts in a row on one broker; 'noconn': a warm call, also acks=0, to a broker whose connection cannot be re-established); engine GRP traces: JoinGroup/SyncGroup/Heartbeat of the real Coordinator must not time out earlier than the timeout (35 s minimum for joins, measured from the call), must resolve by write time + that bound, and their silent connection must be dropped."
     " At the broker connection (engine BC, script 'latereply'): a request cancelled by its owner (what the client does at the timeout) whose id is used again before its reply arrives - that late reply completes no other request."
+    ' Timeouts include 1500 and 2500 ms; a produce/fetch call that reports a payload as timed out (inside FailedPayloadsError) before issue+timeout is judged like a direct RequestTimedOutError.'
 )
 ASSUMPTIONS = ["the timing clause is evaluated for warm calls only; cold calls first resolve routing, which the property does not bound"]
